@@ -142,4 +142,18 @@ theorem gridKronRowMajor_reverse [Monoid α] [Zero α] : ∀ (Ks : List (Sq α))
       exact (gridKronRowMajor_snoc Ks.reverse K).trans
         (kronSq_congr (gridKronRowMajor_reverse Ks) (SqEquiv.refl K))
 
+/-- one grid dimension of a stationary kernel `k(x, y) = f(x − y)` on the equally spaced grid `g₀ + l·δ`, `l < n` -/
+structure GridDim (α : Type) where
+  n : ℕ
+  f : α → α
+  g0 : α
+  δ : α
+
+/-- the row `k(g₀, g_l)` that `GridKernel.forward` evaluates under `use_toeplitz` -/
+def GridDim.row [Field α] (d : GridDim α) : Σ n : ℕ, Fin n → α := ⟨d.n, fun l => d.f (d.g0 - (d.g0 + l.1 * d.δ))⟩
+
+/-- the dense one-dimensional kernel matrix `k(g_i, g_j)` -/
+def GridDim.dense [Field α] (d : GridDim α) : Sq α :=
+  ⟨d.n, DMat.ofMatrix (Matrix.of fun i j : Fin d.n => d.f ((d.g0 + i.1 * d.δ) - (d.g0 + j.1 * d.δ)))⟩
+
 end Structured.Bridge
